@@ -182,10 +182,21 @@ func (f *Frame) frameObligations(ct *Contract, env map[string]Val, r *retInfo, r
 	un := f.un
 	allowed := map[string][]Term{}
 	whole := map[string]bool{}
+	excepted := map[string]bool{}
 	for _, m := range ct.Modifies {
+		if x, ok := exceptItem(m); ok {
+			for _, me := range f.resolveMod(x, env, &f.entry) {
+				excepted[me.heap] = true
+			}
+		}
+	}
+	for _, m := range ct.Modifies {
+		if _, ok := exceptItem(m); ok {
+			continue
+		}
 		if strings.TrimSpace(m) == "*" {
 			for k := range r.st.H {
-				if !strings.HasPrefix(k, "G_") {
+				if !strings.HasPrefix(k, "G_") && !excepted[k] {
 					whole[k] = true
 				}
 			}
